@@ -102,7 +102,7 @@ func (g *Generator) parseManual(srcType, destType types.Type) []string {
 						} else {
 							logx.Fatalf("found more than one manual write method: (%s).%s", recvTypeName, fn.Name.Name)
 						}
-						names := findAssignedFieldPaths(fn, param.Names[0].Name)
+						names := findAssignedFieldPaths(fn, firstName(param))
 						for _, n := range names {
 							g.writeDestSet.Adds(n)
 						}
@@ -117,7 +117,7 @@ func (g *Generator) parseManual(srcType, destType types.Type) []string {
 						} else {
 							logx.Fatalf("found more than one manual read method: (%s).%s", recvTypeName, fn.Name.Name)
 						}
-						names := findAssignedFieldPaths(fn, recv.Names[0].Name)
+						names := findAssignedFieldPaths(fn, firstName(recv))
 						for _, n := range names {
 							if types.ConvertibleTo(srcType, g.newShooterIface()) && !ast.IsExported(n) {
 								//r.x = 0 => SetX, SetX may not exist
@@ -162,8 +162,20 @@ func isReadMethod(methodName string, destPkgName string) bool {
 	return false
 }
 
+// firstName returns the name a parameter or receiver is declared with, or "" when it is unnamed.
+func firstName(f *ast.Field) string {
+	if len(f.Names) == 0 {
+		return ""
+	}
+	return f.Names[0].Name
+}
+
 func findAssignedFieldPaths(funcDecl *ast.FuncDecl, v string) []string {
 	var fieldPath []string
+	if v == "" || v == "_" {
+		//nothing can be assigned through an unnamed variable
+		return fieldPath
+	}
 	ast.Inspect(funcDecl.Body, func(n ast.Node) bool {
 		if assign, ok := n.(*ast.AssignStmt); ok {
 			for _, lhs := range assign.Lhs {
